@@ -248,6 +248,28 @@ func (m *monC13) AfterBlock(c *Chain, req *abci.RequestFinalizeBlock, res *abci.
 		}
 	}
 	changes := diffSnap(m.begin, m.preEnd)
+	// a staking transaction can remove a validator from x/staking (last shares of an unbonded validator undelegated); the
+	// AfterValidatorRemoved hook then deletes that validator's current key assignment on every consumer (prefixes 22 and 23):
+	// such deletions are not attributed to the transaction's consumers
+	kept := changes[:0:0]
+	for _, ch := range changes {
+		if ch.New == nil && len(ch.Key) > 0 && (ch.Key[0] == 22 || ch.Key[0] == 23) {
+			var prov []byte
+			if ch.Key[0] == 23 { // consumer address -> provider address
+				prov = ch.Old
+			} else if o := ownerOfKey(ch.Key, ch.Old); o.known && len(ch.Key) >= 9+len(o.owner) {
+				prov = ch.Key[9+len(o.owner):]
+			}
+			if len(prov) > 0 {
+				if _, err := w.P.PApp.StakingKeeper.GetValidatorByConsAddr(c.Ctx(), sdk.ConsAddress(prov)); err != nil {
+					w.Event("C13", "key-assignments-deleted-with-their-removed-validator")
+					continue
+				}
+			}
+		}
+		kept = append(kept, ch)
+	}
+	changes = kept
 	sum := summarizeDiff(changes)
 	w.Eval("C13")
 	for id, prefixes := range sum.Owners {
